@@ -436,6 +436,7 @@ type harness struct {
 	cnt      map[string]int
 	nontriv  bool
 	startAt  time.Time
+	nonces   map[string]time.Time // (name, nonce) of the consumer's Interests -> when last seen
 }
 
 func (h *harness) holed(f *flight) bool {
@@ -480,6 +481,19 @@ func (h *harness) collect() error {
 			}
 			if f.interest != side.toPr {
 				return fmt.Errorf("unexpected packet direction: interest=%v from consumer=%v (%s)", f.interest, side.toPr, f.name)
+			}
+			if f.interest && p.Interest.NonceV != nil {
+				// what any forwarder between the two does (C02): an Interest that repeats name
+				// and nonce of one seen in the last few seconds (pending, or recorded as dead) is
+				// a loop and goes nowhere. A retransmission has to carry a new nonce; one that
+				// does not is not an attempt the producer can ever see, and is not counted as one.
+				nk := fmt.Sprintf("%s|%08x", f.name, *p.Interest.NonceV)
+				if last, ok := h.nonces[nk]; ok && time.Since(last) <= 6*time.Second {
+					h.nonces[nk] = time.Now()
+					h.cnt["interests repeating name and nonce of an earlier one: suppressed as a loop by the network"]++
+					continue
+				}
+				h.nonces[nk] = time.Now()
 			}
 			if f.interest {
 				if g := h.gets[h.m.objOf(f.name)]; g != nil {
@@ -679,7 +693,7 @@ func (h *harness) result(err error) evid.Result {
 }
 
 func runC15(c Case) (res evid.Result) {
-	h := &harness{m: newModel(), cf: &relayFace{}, pf: &relayFace{}, gets: map[int]*getState{}, hole: c.Hole,
+	h := &harness{m: newModel(), cf: &relayFace{}, pf: &relayFace{}, gets: map[int]*getState{}, nonces: map[string]time.Time{}, hole: c.Hole,
 		cls: map[string]bool{}, cnt: map[string]int{}, startAt: time.Now()}
 	passAll := func(enc.Name, enc.Wire, ndn.Signature) bool { return true }
 	mkEngine := func(f *relayFace) *basic.Engine {
